@@ -1,6 +1,6 @@
 (* Extraction for C11: ExtrOcamlBasic only. *)
 From Coq Require Extraction.
 From Coq Require Import ExtrOcamlBasic.
-From Isomdl Require Import Lib.Bytes Lib.Cbor Api.Dispatch Api.C11.
-Definition dispatch (input : bytes) : bytes := dispatch_with [api_c11] input.
+From Isomdl Require Import Lib.Bytes Lib.Cbor Api.Dispatch Api.Loose Api.C11.
+Definition dispatch (input : bytes) : bytes := dispatch_with [api_c11; api_loose] input.
 Extraction "model_C11.ml" dispatch.
